@@ -286,5 +286,52 @@ def analyse(fi: FuncInfo, id_params: Set[str], id_collections: Set[str], graph_n
             bad = [u for u in bad if not any(last_append < rb < u.lineno for rb in rebinds)]
             if bad and not sorts:
                 unordered.append((bad[0], f"`{nm}` is filled in neighbour-iteration order ({norm(unordered_loop.iter)}) and reaches the label unsorted"))
+    # a *sequence* built by a comprehension over an unordered id source (tuple(f(nbr) for nbr in G.neighbors(v)), also through a local
+    # `nbrs = list(G.neighbors(v))`) carries the iteration order of that source: on its way to the label it must pass an order-free call
+    def _unordered_source(it):
+        base = it.body if isinstance(it, ast.IfExp) else it
+        while isinstance(base, ast.Call) and isinstance(base.func, ast.Name) and base.func.id in ("list", "tuple", "reversed", "enumerate", "iter") and base.args:
+            base = base.args[0]
+        if isinstance(base, ast.Call) and isinstance(base.func, ast.Name) and base.func.id in ("sorted", "set", "frozenset"):
+            return False
+        if isinstance(base, ast.Call) and isinstance(base.func, ast.Attribute) and base.func.attr in GRAPH_ITERS:
+            return True
+        if isinstance(base, ast.Name) and base.id not in id_collections:
+            ds = [d for d in defs.get(base.id, []) if d.kind == "assign" and d.value is not None]
+            # bound once, or once per branch: every binding is such a source
+            return bool(ds) and len(ds) == len(defs.get(base.id, [])) and all(d.value is not it and _unordered_source(d.value) for d in ds)
+        return False
+    for comp in walk_local(fn):
+        if not isinstance(comp, (ast.ListComp, ast.GeneratorExp)) or not comp.generators or not _unordered_source(comp.generators[0].iter):
+            continue
+        if isinstance(comp.elt, ast.Constant):
+            continue
+        cur, child, free = pm.get(comp), comp, False
+        while cur is not None and not isinstance(cur, ast.stmt):
+            if isinstance(cur, ast.Call) and isinstance(cur.func, ast.Name) and cur.func.id in ORDER_FREE and child in cur.args:
+                free = True
+                break
+            if isinstance(cur, ast.Call) and not (isinstance(cur.func, ast.Name) and cur.func.id in ("tuple", "list")) and not (
+                    isinstance(cur.func, ast.Attribute) and cur.func.attr == "join"):
+                free = None     # consumed by some other call: not this rule's business
+                break
+            if isinstance(cur, (ast.comprehension, ast.Compare, ast.Lambda)):
+                free = None
+                break
+            child, cur = cur, pm.get(cur)
+        if free is not False:
+            continue
+        reaches = isinstance(cur, ast.Return) or (isinstance(cur, ast.Assign) and any(isinstance(t, ast.Name) and t.id in seen for t in cur.targets))
+        if not reaches:
+            continue
+        if isinstance(cur, ast.Assign):
+            nm = cur.targets[0].id
+            uses = [u for u in walk_local(fn) if isinstance(u, ast.Name) and u.id == nm and isinstance(u.ctx, ast.Load)]
+            wrapped = [u for u in uses if isinstance(pm.get(u), ast.Call) and isinstance(pm[u].func, ast.Name) and pm[u].func.id in ORDER_FREE]
+            sorts = [c for c in walk_local(fn) if isinstance(c, ast.Call) and isinstance(c.func, ast.Attribute) and c.func.attr == "sort"
+                     and isinstance(c.func.value, ast.Name) and c.func.value.id == nm]
+            if sorts or (uses and len(wrapped) == len(uses)):
+                continue
+        unordered.append((comp, f"a sequence is built in neighbour-iteration order ({norm(comp.generators[0].iter)}) and reaches the label unsorted"))
     facts = {"id_names": sorted(tainted), "id_collections": sorted(colls), "value_names_in_label": sorted(seen)}
     return leaks, unordered, facts
